@@ -4,7 +4,7 @@
 # Evidence and findings of these runs go to a scratch directory (VERIF_DIR), not to /verif/evidence.
 #   tools/run-seeded.sh <n> [<n>...]     (default: all)
 cd "$(dirname "$0")/.."
-[ $# -eq 0 ] && set -- $(ls seeded)
+[ $# -eq 0 ] && set -- $(cd seeded && ls -d */ | tr -d /)
 if ! git -C /repo diff --quiet; then echo "/repo has uncommitted changes; refusing"; exit 2; fi
 for N in "$@"; do
   IDS=$(python3 -c "import json;print(' '.join(json.load(open('seeded/$N/meta.json'))['caught_by']))")
